@@ -492,7 +492,7 @@ class DBOS(metaclass=_Meta):
                     c.commit()
             if row is not None:
                 msg = pickle.loads(row[1])
-                _obs("dbos-recv", wf=wfid, fid=fid, msg=type(msg).__name__)
+                _obs("dbos-recv", wf=wfid, fid=fid, msg=type(msg).__name__, uid=getattr(getattr(msg, "event", None), "uid", None))
                 return msg
             remaining = deadline - time.time()
             if remaining <= 0:
